@@ -50,6 +50,21 @@ def mk(spec: Tuple[str, Any, Any]):
     if shape == "typed_error":
         return (J.create_error_response(mid, -32000, str(payload), data={"d": payload}),
                 {"jsonrpc": "2.0", "id": mid, "error": {"code": -32000, "message": str(payload), "data": {"d": payload}}})
+    # the envelope classes instantiated directly, relying on every declared default (jsonrpc is one of them)
+    if shape == "direct_request":
+        return J.JSONRPCRequest(id=mid, method="tools/call", params=params), {"jsonrpc": "2.0", "id": mid, "method": "tools/call", "params": params}
+    if shape == "direct_notification":
+        return J.JSONRPCNotification(method="notifications/x", params=params), {"jsonrpc": "2.0", "method": "notifications/x", "params": params}
+    if shape == "direct_response":
+        return J.JSONRPCResponse(id=mid, result=params), {"jsonrpc": "2.0", "id": mid, "result": params}
+    if shape == "direct_error":
+        return (J.JSONRPCError(id=mid, error={"code": -32000, "message": str(payload)}),
+                {"jsonrpc": "2.0", "id": mid, "error": {"code": -32000, "message": str(payload)}})
+    if shape == "direct_legacy":
+        return J.JSONRPCMessage(id=mid, method="tools/call", params=params), {"jsonrpc": "2.0", "id": mid, "method": "tools/call", "params": params}
+    if shape == "direct_validate":
+        return (J.JSONRPCRequest.model_validate({"id": mid, "method": "tools/call", "params": params}),
+                {"jsonrpc": "2.0", "id": mid, "method": "tools/call", "params": params})
     if shape == "legacy_request":
         return J.JSONRPCMessage.create_request("tools/call", params, id=mid), {"jsonrpc": "2.0", "id": mid, "method": "tools/call", "params": params}
     if shape == "legacy_notification":
@@ -98,7 +113,8 @@ def mk(spec: Tuple[str, Any, Any]):
 
 UNSER = ("UNSER",)
 GOOD_SHAPES = ["typed_request", "typed_request_noparams", "typed_notification", "typed_response", "typed_error",
-               "legacy_request", "legacy_notification", "legacy_response", "dict", "dict_notification", "str_ascii", "str_utf8"]
+               "legacy_request", "legacy_notification", "legacy_response", "dict", "dict_notification", "str_ascii", "str_utf8",
+               "direct_request", "direct_notification", "direct_response", "direct_error", "direct_legacy", "direct_validate"]
 BAD_SHAPES = ["unser_object", "unser_set", "unser_circular", "unser_bytes", "surrogate_dict", "unser_surrogate_str",
               "unser_deep", "unser_badrepr"]
 IDS = [1, 0, "a", "123", 2**63, "\u00fc"]
